@@ -7,6 +7,7 @@
 (*   [k |-> "mmap", es   |-> entry size, ents |-> <<[a, l, t]>>]  type 6     *)
 (*   [k |-> "fb",   addr, pitch, w, h (limbs), bpp, ft, ci |-> <<bytes>>]   type 8 *)
 (*   [k |-> "elf",  shndx, secs |-> <<[ni, fl, ad, sz]>>, strtab |-> <<bytes>>] type 9 *)
+(*        (secs may be empty: a kernel image without section headers, shndx = 0)  *)
 (*   [k |-> "other", ty  |-> type, len |-> payload bytes]    any other type *)
 (* Wide values are limb tuples (most significant 16-bit limb first): a, l,  *)
 (* ad, sz, addr have 4 limbs, t, fl, pitch, w, h have 2.                    *)
